@@ -211,11 +211,11 @@ def run_check(pid, tier, seed, replay=None):
                 found = bool(mod.search(ctx, st))
             except Exception:
                 ctx.log("search crashed: " + traceback.format_exc())
-        if not found and not any(v["concrete"] for v in ctx.violations):
-            ctx.violation("proof-broken", "theorem(s) no longer check: " + "; ".join(st["broken"])[:600],
-                          dict(theorems=st["broken"], log=st.get("log", "")[-2500:]), concrete=False)
-        elif not found:
-            ctx.notes.append("proofs broken: " + "; ".join(st["broken"])[:600])
+        # a broken proof obligation is always reported (known findings or other violations never hide it)
+        ctx.violation("proof-broken", "theorem(s) no longer check: " + "; ".join(st["broken"])[:600],
+                      dict(theorems=st["broken"], log=st.get("log", "")[-2500:],
+                           failing_input_search="see the other VIOLATION lines of this run" if (found or any(v["concrete"] for v in ctx.violations)) else "none found"),
+                      concrete=False)
 
     known = [(p, k, t) for (p, k, t) in C.load_known() if p == pid]
     lines, nviol, nknown = [], 0, 0
